@@ -215,7 +215,95 @@ def _from(mod, fn):
     return f
 
 
-FUNCS = {"hc_seeded": hc_seeded, "entry_points": entry_points, "payload_sequence": _from("c17", "sequence"), "build_twice": _from("c03", "build_twice"),
+def opcode_order(V, n):
+    """the operator-code table of a written model does not depend on the iteration order of a set (which follows PYTHONHASHSEED for strings and
+    enum members): the REAL TFLiteSerialiser constructor on a stand-in graph of `n` CPU operators, several of which share an operator type
+    (third-party custom operators with different custom codes, one builtin at two versions), with `set` replaced by a stand-in that iterates in a
+    SYMBOLIC permutation.  For every permutation the table is the same list."""
+    import ethosu.vela.tflite_writer as tw
+    from ethosu.vela.nn_graph import PassPlacement
+    from ethosu.vela.operation import Op
+
+    specs = [(Op.Custom, "vendor_b", 1), (Op.Custom, "vendor_a", 1), (Op.Relu, "", 1), (Op.Custom, "vendor_c", 1), (Op.Relu, "", 2)][:n]
+
+    class T:
+        def is_conv2d_op(self):
+            return False
+
+    def mkop(t, code, ver):
+        o = _Obj(type=t, attrs={"custom_code": code} if code else {}, version=ver, inputs=[], ifm=None)
+        return o
+
+    ops = [mkop(*sp) for sp in specs]
+    sg = _Obj(placement=PassPlacement.Cpu, passes=[_Obj(ops=ops)])
+    nng = _Obj(subgraphs=[sg])
+
+    class PermSet:
+        """a set whose iteration order is arbitrary: one symbolic choice per position"""
+
+        def __init__(self, it=()):
+            self.items = []
+            for x in it:
+                if x not in self.items:
+                    self.items.append(x)
+
+        def __iter__(self):
+            rest = list(self.items)
+            out = []
+            while rest:
+                i = V.choice("pick%d" % len(out), list(range(len(rest)))) if len(rest) > 1 else 0
+                out.append(rest.pop(i))
+            return iter(out)
+
+        def __len__(self):
+            return len(self.items)
+
+    saved = tw.TFLiteSerialiser.align_nng_inputs_to_tflite
+    tw.TFLiteSerialiser.align_nng_inputs_to_tflite = lambda self, op: None
+    saved_set = tw.__dict__.get("set", None)
+    tw.set = PermSet  # in both modes: the replay picks the permutation the solver chose (a real set's order cannot be chosen)
+    try:
+        ser = tw.TFLiteSerialiser(nng)
+    finally:
+        tw.TFLiteSerialiser.align_nng_inputs_to_tflite = saved
+        if saved_set is None:
+            del tw.set
+        else:
+            tw.set = saved_set
+    want = sorted(set((o.type, o.attrs.get("custom_code", ""), o.version) for o in ops))
+    return [("the operator-code table is the same for every iteration order of the set", list(ser.operator_codes) == want)]
+
+
+class _Obj:
+    def __init__(self, **kw):
+        self.__dict__.update(kw)
+
+
+def hc_twice(V, times, aligns):
+    """the same allocation problem solved twice in one process - with other users of the random module in between - gets the same addresses: the REAL
+    HillClimbAllocator.allocate() with the REAL random module, symbolic sizes (the draws of the search depend on list lengths only)"""
+    import random
+    import ethosu.vela.hillclimb_allocation as hc
+    from harness import c05
+
+    n = len(times)
+    sizes = c05._sizes(V, n, hi=2**20)
+    saved_min = hc.HillClimbAllocator.MIN_ITERATIONS_IMPROVE
+    hc.HillClimbAllocator.MIN_ITERATIONS_IMPROVE = 1
+    res = []
+    try:
+        with core.shims(*c05._hc_shims()):
+            for run in range(2):
+                lrs = [c05._mk_lr("t%d" % i, times[i][0], times[i][1], sizes[i], aligns[i]) for i in range(n)]
+                res.append(list(hc.HillClimbAllocator(lrs, 1, 0).allocate()))
+                for _ in range(3):
+                    random.random()  # somebody else uses the generator between two compilations
+    finally:
+        hc.HillClimbAllocator.MIN_ITERATIONS_IMPROVE = saved_min
+    return [("range %d gets the same address in both runs" % i, L(res[0][i]) == L(res[1][i])) for i in range(n)]
+
+
+FUNCS = {"opcode_order": opcode_order, "hc_twice": hc_twice, "hc_seeded": hc_seeded, "entry_points": entry_points, "payload_sequence": _from("c17", "sequence"), "build_twice": _from("c03", "build_twice"),
          "cache_key": _from("c08", "cache_key"), "scale_cache_key": _from("c08", "scale_cache_key"), "cache": _from("c08", "cache"),
          "lut_identity": _from("c19", "lut_identity"), "footprint_strided": _from("c02", "footprint_strided")}
 
@@ -232,6 +320,10 @@ def instances(tier, seed):
         cases += [((0, 1), (1, 2), (0, 2)), ((0, 0), (0, 1), (1, 1))]
     for i, tv in enumerate(cases):
         out.append(dict(key="hc_seeded/%d" % i, fn="hc_seeded", params=dict(times=[list(t) for t in tv], aligns=[16, 64, 16][:len(tv)]), weight=1000))
+    for i, tv in enumerate(cases):
+        out.append(dict(key="hc_twice/%d" % i, fn="hc_twice", params=dict(times=[list(t) for t in tv], aligns=[16, 64, 16][:len(tv)]), weight=500))
+    for n in (3, 4, 5):
+        out.append(dict(key="opcode_order/%d" % n, fn="opcode_order", params=dict(n=n)))
     take = {"c17": ("sequence", "payload_sequence"), "c03": ("build_twice", "build_twice"), "c19": ("lut_identity", "lut_identity"), "c02": ("footprint_strided", "footprint_strided")}
     for modname, mod in (("c17", c17), ("c03", c03), ("c19", c19), ("c02", c02)):
         src, dst = take[modname]
